@@ -43,8 +43,12 @@ pub trait ExtractAttribute {
         let will_fwd_any = self.forward_attrs().will_forward_any();
 
         if !(will_parse_any || will_fwd_any) {
+            // No attribute will be read or forwarded, but a receiving `attrs` field still
+            // has to be given its (empty) value: its initializer expects one.
+            let fwd_population = self.forward_attrs().as_value_populator();
             return quote! {
                 #declarations
+                #fwd_population
             };
         }
 
